@@ -23,9 +23,28 @@ class W(Worker):
         return x * 2
 
 
+def _reject(x):
+    if x % 7 == 3:
+        raise ValueError(x)
+    return x
+
+
+class WAttr(Worker):
+    """the hook as an ATTRIBUTE holding a free-standing function, assigned after the base constructor ran (the documented alternative to a method)"""
+
+    def __init__(self, batch_size, batch_wait_time=None, **kw):
+        super().__init__(batch_size=batch_size, batch_wait_time=batch_wait_time, **kw)
+        self.preprocess = _reject
+
+    call = W.call
+
+
+WORKER = W
+
+
 def check(b, wait, n=40):
     seen.clear()
-    server = Server(ThreadServlet(W, batch_size=b, batch_wait_time=wait), capacity=64)
+    server = Server(ThreadServlet(WORKER, batch_size=b, batch_wait_time=wait), capacity=64)
     with server:
         out = list(server.stream(range(n), return_exceptions=True))
         # a lone request is served without waiting for a full batch
@@ -60,7 +79,7 @@ def check(b, wait, n=40):
 def shapes(b, wait):
     """every call sees a non-empty list of <= b genuine inputs (b > 0) or a single element (b == 0); each accepted input exactly once"""
     seen.clear()
-    server = Server(ThreadServlet(W, batch_size=b, batch_wait_time=wait), capacity=64)
+    server = Server(ThreadServlet(WORKER, batch_size=b, batch_wait_time=wait), capacity=64)
     with server:
         n = 50
         list(server.stream(range(n), return_exceptions=True))
@@ -83,6 +102,11 @@ def shapes(b, wait):
 for b, wait in ((0, None), (1, None), (3, 0.2), (3, 0), (5, 0.05)):
     shapes(b, wait)
     check(b, wait)
+WORKER = WAttr
+n0 = len(fails)
+for b, wait in ((0, None), (1, None), (3, 0.05)):
+    shapes(b, wait)
+fails[n0:] = ['[preprocess given as an instance attribute] ' + f for f in fails[n0:]]
 if fails:
     print('\n'.join(fails[:10])); sys.exit(1)
 print('OK')
